@@ -914,6 +914,13 @@ def check_C18(tr):
     return bad
 
 
+def check_dropwait(tr):
+    """a destructor that waits for another thread's program to end is eventually released (the harness logs `dropwait-starved` when
+    it gave up after 400 scheduling points)"""
+    return ["a destructor run by the machinery waited for a thread that was itself waiting for the turn: %s (line %d)" % (" ".join(l.split()[1:]), i)
+            for i, l in enumerate(tr.lines) if " dropwait-starved " in l]
+
+
 def check_hint(tr):
     """the `size_hint` of a chunk's value iterator is exactly its `len()` -- `(len, Some(len))`, std's documented requirement on
     an `ExactSizeIterator` -- at every point the harness looks (the harness logs a `hint-mismatch` line otherwise)"""
@@ -1002,7 +1009,7 @@ MONITORS = {
     "C19": check_C19,
     "C01": _with_nth(check_C01), "C02": _with_nth(check_C02), "C03": (lambda tr: check_C03(tr) + check_hint(tr)), "C04": _with_nth(check_C04), "C05": check_C05,
     "C06": check_C06, "C07": check_C07, "C08": check_C08, "C09": check_C09, "C10": check_C10,
-    "C11": (lambda tr: check_C11(tr) + check_view_hint(tr)), "C12": check_C12, "C15": check_C15, "C16": check_C16, "C18": check_C18,
+    "C11": (lambda tr: check_C11(tr) + check_view_hint(tr)), "C12": check_C12, "C15": check_C15, "C16": check_C16, "C18": (lambda tr: check_C18(tr) + check_dropwait(tr)),
     # std's contract of `ExactSizeIterator` (the chunk value iterators implement it): `size_hint` is exact
     "C17": check_hint,
 }
